@@ -1,7 +1,7 @@
 (** RFC 3526 group 18: the prime in crypto.py (regenerated into Gen/ModpGroups.v) equals the RFC's closed form. *)
 From Coq Require Import ZArith Reals.
 From Interval Require Import Tactic.
-From Keys Require Import Gen.ModpGroups Rfc3526 PrimeLemmas.
+From Keys Require Import Gen.ModpGroups ModpTable Rfc3526Formula PrimeLemmas.
 Open Scope Z_scope.
 
 Lemma prime_18 : modp_prime 18 = rfc3526_prime 8192 4743158.
